@@ -47,7 +47,7 @@ Live(s)   == socks[s].kind # "none"
 \* "currently bound by a UDP socket or TCP listener, or used by a live TCP stream"
 UdpPorts  == {socks[s].port : s \in {x \in Slots : socks[x].kind = "udp"}}
 LstPorts  == {socks[s].port : s \in {x \in Slots : socks[x].kind = "lst"}}
-StrPorts  == {socks[s].port : s \in {x \in Slots : socks[x].kind \in {"out", "in"}}}
+StrPorts  == {socks[s].port : s \in {x \in Slots : socks[x].kind \in {"out", "in", "att"}}}
 InUse     == UdpPorts \cup LstPorts \cup StrPorts
 
 Flag(cond, name) == IF cond THEN {} ELSE {name}
@@ -85,6 +85,17 @@ P_Connect(s, res) ==
     /\ bad' = bad \cup (IF res = Failed THEN {} ELSE EphemeralOk(res))
     /\ socks' = IF res > 0
                 THEN [socks EXCEPT ![s] = [kind |-> "out", port |-> res, r |-> TRUE, w |-> TRUE]]
+                ELSE socks
+    /\ UNCHANGED <<dns, nlook>>
+
+\* an outgoing connect that is still pending (its request waits at a listener that does not accept):
+\* it holds the ephemeral port it was assigned (res = source port of its SYN as Sim::links shows it)
+\* until the future is dropped or the host crashes
+P_ConnectPending(s, res) ==
+    /\ ~Live(s)
+    /\ bad' = bad \cup EphemeralOk(res)
+    /\ socks' = IF res > 0
+                THEN [socks EXCEPT ![s] = [kind |-> "att", port |-> res, r |-> TRUE, w |-> TRUE]]
                 ELSE socks
     /\ UNCHANGED <<dns, nlook>>
 
@@ -183,6 +194,7 @@ DnsRegex     == "DnsRegex" \notin bad
 NoDoubleUse ==
     \A s, t \in Slots : (s # t /\ Live(s) /\ Live(t) /\ socks[s].port = socks[t].port) =>
         /\ ~(socks[s].kind = socks[t].kind /\ socks[s].kind \in {"udp", "lst", "out"})
+        /\ ~({socks[s].kind, socks[t].kind} = {"out", "att"}) /\ ~(socks[s].kind = "att" /\ socks[t].kind = "att")
 
 C15Inv == /\ FreshPort /\ BindOracle /\ Available /\ NoDoubleUse
           /\ DnsFunction /\ DnsInjective /\ DnsReverse /\ DnsLiteral /\ DnsRegex
